@@ -16,7 +16,7 @@
      linear a b x                      a.x + b *)
 From Coq Require Import List ZArith Bool Arith Lia Reals Lra.
 Import ListNotations.
-From PP Require Import Model.C12 Proofs.C12.
+From PP Require Import Model.C12 Proofs.C12 Proofs.C12_transfer.
 
 (* What Tpfa.discretize returns (real instance). *)
 Theorem C12_discretize :
@@ -128,6 +128,15 @@ Theorem C12_bound_pressure_neumann :
     face_pressure I (fun c0 : nat => linear a b (ccen I c0)) bv f = linear a b (fcen I f).
 Proof. exact bound_pressure_neumann. Qed.
 Print Assumptions C12_bound_pressure_neumann.
+
+(* The K-orthogonality checker that the harness evaluates over exact rationals on every
+   generated grid implies the real-valued hypothesis [korth] used above, for the same data
+   read as reals ([in2r] maps every rational coordinate with Q2R). *)
+Theorem C12_korth_checker :
+  forall I : input Q,
+    korth_b I = true -> forall e : inc, In e (cf (in2r I)) -> korth (in2r I) e.
+Proof. exact korth_transfer. Qed.
+Print Assumptions C12_korth_checker.
 
 (* ------------------------------------------------------------------------------------ *)
 (* Non-vacuity: the unit-spaced 1-D grid with two cells, K = 2 I; face 0 Dirichlet, face 1
